@@ -2,3 +2,182 @@
 From BVA Require Import Base.Prelude Base.Result Base.Words Base.Limbs.
 From BVA Require Import Model.Core Model.Ops Model.Arith Model.Conv Model.Auto Spec.Spec Proofs.Common.
 From Coq Require Import ZifyBool ZifyN ZifyNat.
+
+(* ------------------------------------------------------------------ digits of a number *)
+
+Definition digits_of (w R : N) (rhs : N -> N) : Prop := forall i, rhs i = (R / 2 ^ (w * i)) mod 2 ^ w.
+
+(* only the digits below n matter for numbers below 2^(w*n) *)
+Definition digits_below (w R : N) (rhs : N -> N) (n : N) : Prop :=
+  forall i, i < n -> rhs i = (R / 2 ^ (w * i)) mod 2 ^ w.
+
+Lemma digits_of_below w R rhs n : digits_of w R rhs -> digits_below w R rhs n.
+Proof. intros H i _. apply H. Qed.
+
+Lemma digit_mod w n A i :
+  i < n -> ((A mod 2 ^ (w * n)) / 2 ^ (w * i)) mod 2 ^ w = (A / 2 ^ (w * i)) mod 2 ^ w.
+Proof.
+  intros Hi. apply N.bits_inj. intro b.
+  rewrite !mod_pow2_testbit, !div_pow2_testbit, mod_pow2_testbit.
+  destruct (N.ltb_spec b w) as [Hb|Hb]; [|reflexivity].
+  destruct (N.ltb_spec (b + w * i) (w * n)) as [H|H]; [reflexivity|]. nia.
+Qed.
+
+Lemma digits_below_mod w A a n : digits_below w A a (n + 1) -> digits_below w (A mod 2 ^ (w * n)) a n.
+Proof. intros H i Hi. rewrite digit_mod by assumption. apply H. lia. Qed.
+
+Lemma top_digit w A a n :
+  A < 2 ^ (w * (n + 1)) -> digits_below w A a (n + 1) -> a n = A / 2 ^ (w * n).
+Proof.
+  intros HA Hd. rewrite (Hd n) by lia. apply N.mod_small.
+  apply N.div_lt_upper_bound; [apply pow2_ne0|].
+  rewrite <- pow2_add. replace (w * n + w) with (w * (n + 1)) by lia. assumption.
+Qed.
+
+(* comparing P*qa+ra with P*qb+rb, ra rb < P *)
+Lemma compare_split_eq P q ra rb : N.compare (P * q + ra) (P * q + rb) = N.compare ra rb.
+Proof.
+  destruct (N.compare_spec ra rb) as [H|H|H].
+  - subst. apply N.compare_refl.
+  - apply N.compare_lt_iff. lia.
+  - apply N.compare_gt_iff. lia.
+Qed.
+
+Lemma split_lt P qa qb ra rb : ra < P -> qa < qb -> P * qa + ra < P * qb + rb.
+Proof.
+  intros Hr Hq. assert (P * (qa + 1) <= P * qb) by (apply N.mul_le_mono_l; lia). lia.
+Qed.
+
+(* ------------------------------------------------------------------ cmp_words *)
+
+Definition cmp_f (a b : N -> N) := fun (acc : comparison) (i : N) =>
+  match acc with Eq => N.compare (a i) (b i) | o => o end.
+
+Lemma fold_decided a b l c : c <> Eq -> fold_left (cmp_f a b) l c = c.
+Proof.
+  intros Hc. induction l as [|x r IH]; [reflexivity|].
+  cbn [fold_left]. unfold cmp_f at 2. destruct c; [congruence|exact IH|exact IH].
+Qed.
+
+Lemma cmp_words_succ a b n :
+  cmp_words a b (n + 1) = fold_left (cmp_f a b) (rev (nrange n)) (N.compare (a n) (b n)).
+Proof.
+  unfold cmp_words. rewrite nrange_succ, rev_app_distr. reflexivity.
+Qed.
+
+Lemma cmp_words_below w a b n :
+  0 < w -> forall A B, digits_below w A a n -> digits_below w B b n ->
+  A < 2 ^ (w * n) -> B < 2 ^ (w * n) ->
+  cmp_words a b n = N.compare A B.
+Proof.
+  intros Hw. induction n as [|n IH] using N.peano_ind; intros A B Ha Hb HA HB.
+  - rewrite N.mul_0_r in *. change (2 ^ 0) with 1 in *.
+    assert (A = 0) by lia. assert (B = 0) by lia. subst. reflexivity.
+  - rewrite <- N.add_1_r in *.
+    pose proof (top_digit w A a n HA Ha) as Ta. pose proof (top_digit w B b n HB Hb) as Tb.
+    set (P := 2 ^ (w * n)) in *.
+    assert (HP : 0 < P) by apply pow2_pos.
+    pose proof (div_mod_eq A P) as EA. pose proof (div_mod_eq B P) as EB.
+    assert (A mod P < P) as RA by (apply N.mod_lt; lia).
+    assert (B mod P < P) as RB by (apply N.mod_lt; lia).
+    rewrite cmp_words_succ.
+    destruct (N.compare_spec (a n) (b n)) as [H|H|H].
+    + change (fold_left (cmp_f a b) (rev (nrange n)) Eq) with (cmp_words a b n).
+      rewrite (IH (A mod P) (B mod P)); try assumption;
+        try (apply digits_below_mod; assumption).
+      rewrite EA, EB at 2. rewrite <- Tb, <- H, <- Ta. symmetry. apply compare_split_eq.
+    + rewrite fold_decided by discriminate. symmetry. apply N.compare_lt_iff.
+      rewrite EA, EB. apply split_lt; [assumption|]. rewrite <- Ta, <- Tb. assumption.
+    + rewrite fold_decided by discriminate. symmetry. apply N.compare_gt_iff.
+      rewrite EA, EB. apply split_lt; [assumption|]. rewrite <- Ta, <- Tb. assumption.
+Qed.
+
+Lemma cmp_words_spec w a b A B n :
+  0 < w -> digits_of w A a -> digits_of w B b -> A < 2 ^ (w * n) -> B < 2 ^ (w * n) ->
+  cmp_words a b n = N.compare A B.
+Proof.
+  intros Hw Ha Hb HA HB.
+  apply (cmp_words_below w a b n Hw A B); try assumption; apply digits_of_below; assumption.
+Qed.
+
+(* ------------------------------------------------------------------ eq_words *)
+
+Lemma eq_words_succ a b n : eq_words a b (n + 1) = eq_words a b n && (a n =? b n).
+Proof.
+  unfold eq_words. rewrite nrange_succ, forallb_app. cbn [forallb]. rewrite andb_true_r. reflexivity.
+Qed.
+
+Lemma eq_words_below w a b n :
+  0 < w -> forall A B, digits_below w A a n -> digits_below w B b n ->
+  A < 2 ^ (w * n) -> B < 2 ^ (w * n) ->
+  eq_words a b n = (A =? B).
+Proof.
+  intros Hw. induction n as [|n IH] using N.peano_ind; intros A B Ha Hb HA HB.
+  - rewrite N.mul_0_r in *. change (2 ^ 0) with 1 in *.
+    assert (A = 0) by lia. assert (B = 0) by lia. subst. reflexivity.
+  - rewrite <- N.add_1_r in *.
+    pose proof (top_digit w A a n HA Ha) as Ta. pose proof (top_digit w B b n HB Hb) as Tb.
+    set (P := 2 ^ (w * n)) in *.
+    assert (HP : 0 < P) by apply pow2_pos.
+    pose proof (div_mod_eq A P) as EA. pose proof (div_mod_eq B P) as EB.
+    assert (A mod P < P) as RA by (apply N.mod_lt; lia).
+    assert (B mod P < P) as RB by (apply N.mod_lt; lia).
+    rewrite eq_words_succ.
+    rewrite (IH (A mod P) (B mod P)); try assumption;
+      try (apply digits_below_mod; assumption).
+    rewrite Ta, Tb.
+    destruct (N.eqb_spec (A / P) (B / P)) as [Hq|Hq].
+    + rewrite andb_true_r. rewrite EA, EB at 2. rewrite Hq.
+      destruct (N.eqb_spec (A mod P) (B mod P)) as [Hr|Hr];
+        destruct (N.eqb_spec (P * (B / P) + A mod P) (P * (B / P) + B mod P)); try reflexivity; lia.
+    + rewrite andb_false_r. symmetry. apply N.eqb_neq. intros E. apply Hq. rewrite E. reflexivity.
+Qed.
+
+Lemma eq_words_spec w a b A B n :
+  0 < w -> digits_of w A a -> digits_of w B b -> A < 2 ^ (w * n) -> B < 2 ^ (w * n) ->
+  eq_words a b n = (A =? B).
+Proof.
+  intros Hw Ha Hb HA HB.
+  apply (eq_words_below w a b n Hw A B); try assumption; apply digits_of_below; assumption.
+Qed.
+
+(* ------------------------------------------------------------------ Bvd against Bvd *)
+
+Lemma digits_of_getw w d : 0 < w -> words_ok w d -> digits_of w (raw w d) (fun i => getw d i).
+Proof. intros Hw Hd i. apply getw_raw; assumption. Qed.
+
+Lemma raw_lt_max w d n : words_ok w d -> lenw d <= n -> raw w d < 2 ^ (w * n).
+Proof.
+  intros Hd Hn. eapply N.lt_le_trans; [apply raw_lt; assumption|].
+  apply pow2_le. apply N.mul_le_mono_l. assumption.
+Qed.
+
+Lemma d_cmp_d_spec s o :
+  canon_wv 64 s -> canon_wv 64 o -> d_cmp_d s o = N.compare (raw 64 (wd s)) (raw 64 (wd o)).
+Proof.
+  intros (Hs & _ & _) (Ho & _ & _). unfold d_cmp_d, dd_words.
+  apply (cmp_words_spec 64); try (apply digits_of_getw; [lia|assumption]);
+    [lia| |]; apply raw_lt_max; try assumption; lia.
+Qed.
+
+Lemma d_eq_d_spec s o :
+  canon_wv 64 s -> canon_wv 64 o -> d_eq_d s o = (raw 64 (wd s) =? raw 64 (wd o)).
+Proof.
+  intros (Hs & _ & _) (Ho & _ & _). unfold d_eq_d, dd_words.
+  apply (eq_words_spec 64); try (apply digits_of_getw; [lia|assumption]);
+    [lia| |]; apply raw_lt_max; try assumption; lia.
+Qed.
+
+(* ------------------------------------------------------------------ order-theoretic corollaries *)
+
+Lemma compare_refl_N a : N.compare a a = Eq.
+Proof. apply N.compare_refl. Qed.
+
+Lemma compare_antisym_N a b : N.compare b a = CompOpp (N.compare a b).
+Proof. apply N.compare_antisym. Qed.
+
+Lemma compare_trans_lt a b c : N.compare a b = Lt -> N.compare b c = Lt -> N.compare a c = Lt.
+Proof. rewrite !N.compare_lt_iff. lia. Qed.
+
+Lemma compare_eq_iff_eqb a b : (N.compare a b = Eq) <-> (a =? b) = true.
+Proof. rewrite N.compare_eq_iff, N.eqb_eq. reflexivity. Qed.
